@@ -59,6 +59,7 @@ type realEnv struct {
 	udp     map[string]*h.UDPBackend // proxy name -> backend
 	bind    map[string]int           // visitor name -> local port
 	stcpVis []string
+	slow    *stallBackend
 	err     error
 }
 
@@ -141,6 +142,16 @@ func setupReal(e *env) *realEnv {
 			return re
 		}
 	}
+	// long-lived stall variant (long.go): a backend the harness can pause
+	if sb, err := startStallBackend("B-slow"); err != nil {
+		re.err = err
+		return re
+	} else {
+		re.slow = sb
+		fmt.Fprintf(&own, "\n[[proxies]]\nname = \"slow\"\ntype = \"stcp\"\nsecretKey = \"sk-slow\"\nlocalIP = \"127.0.0.1\"\nlocalPort = %d\n", sb.b.Port)
+		proxyNames = append(proxyNames, "own.slow")
+	}
+	addVisitor(&visA, "vslow", "stcp", "slow", "sk-slow", false, false, false)
 	addVisitor(&visA, "a-ownonly-badkey", "stcp", "ownonly", "sk-ownonlY", false, false, false)
 	addVisitor(&visA, "a-eveok", "stcp", "eveok", "sk-eveok", false, false, true)
 	addVisitor(&visA, "a-uonly-badkey", "sudp", "uonly", "", false, false, false)
@@ -395,6 +406,9 @@ func realFinal() {
 		}
 		for _, ub := range re.udp {
 			ub.Close()
+		}
+		if re.slow != nil {
+			re.slow.b.Close()
 		}
 	}
 }
